@@ -471,6 +471,9 @@ pub fn run(ctx: &mut Ctx) {
     super::replay_corpus(ctx, replay);
     ctx.run_suite(&CredentialsSuite);
     ctx.run_suite(&RefusalSuite);
+    ctx.run_suite(&super::c13bin::ExportSuite);
+    ctx.run_suite(&super::c13bin::StartSuite);
+    ctx.run_suite(&super::c13bin::WizardSuite);
     ctx.assume("TOML renderer of the harness follows TOML 1.0 and is cross-checked against the `toml` crate on every case; empty user names / passwords are not generated (the endpoint documents them as rejected)");
 }
 
@@ -478,6 +481,9 @@ pub fn replay(ctx: &mut Ctx, suite: &str, case: &Value) -> bool {
     match suite {
         "credentials-file" => ctx.replay_suite(&CredentialsSuite, case),
         "startup-refusals" => ctx.replay_suite(&RefusalSuite, case),
+        "binary-client-config" => ctx.replay_suite(&super::c13bin::ExportSuite, case),
+        "binary-startup" => ctx.replay_suite(&super::c13bin::StartSuite, case),
+        "wizard-roundtrip" => ctx.replay_suite(&super::c13bin::WizardSuite, case),
         _ => false,
     }
 }
